@@ -9,7 +9,7 @@ PATCH="$(readlink -f "$1")"; LABEL="$2"; BUDGET="$3"; shift 3
 S=/tmp/sw/$LABEL
 rm -rf "$S"; mkdir -p "$S/verif" || exit 2
 git -C /repo worktree add --detach -q "$S/repo" HEAD || exit 2
-cleanup() { git -C /repo worktree remove --force "$S/repo" 2>/dev/null; rm -rf "$S"; }
+cleanup() { [ -n "$SWEEP_KEEP" ] && return; git -C /repo worktree remove --force "$S/repo" 2>/dev/null; rm -rf "$S"; }
 trap cleanup EXIT
 if [ "$PATCH" != "/dev/null" ]; then git -C "$S/repo" apply "$PATCH" || { echo "SWEEP $LABEL - patch does not apply"; exit 2; }; fi
 B="${SWEEP_BASE:-/verif}"
